@@ -58,6 +58,89 @@ def klass(ans):
     return ans.split("(")[0]
 
 
+def lineage(hist, idx, slot):
+    """journal lines (op / obs) that shaped the object in `slot` before line idx, oldest first,
+    following copy construction back to the source object"""
+    out, cur = [], slot
+    for l in reversed(hist[:idx]):
+        t = l.split()
+        if not t:
+            continue
+        if t[0] == "copy" and t[1] == cur:
+            cur = t[2]
+        elif t[0] in ("op", "obs") and len(t) > 2 and t[1] == cur:
+            out.append(t)
+        elif t[0] in ("new", "newc") and t[1] == cur:
+            out.append(t)
+            break
+    out.reverse()
+    return out
+
+
+def parse_cons(tokens, n):
+    """constraints `<rel> <k> <a_0..a_{n-1}>`* -> [(rel, k, [a])]"""
+    res, i = [], 0
+    while i + 2 + n <= len(tokens):
+        res.append((tokens[i], int(tokens[i + 1]), [int(x) for x in tokens[i + 2: i + 2 + n]]))
+        i += 2 + n
+    return res
+
+
+def pending_batch_profile(lin):
+    """Replays the lineage of one object and describes the batch of constraints that was pending when
+    the last processing call (any observer) ran: returns a set of structural facts.
+    Mirrors MIP_Problem::parse_constraints: a pending `a*x_j >= 0` (a > 0, single variable, zero
+    inhomogeneous term) on a variable that is already mapped and split re-merges the split."""
+    facts = set()
+    dim, mapped_dim = 0, 0           # space dimension now / when constraints were last processed
+    nonneg = set()                   # variables known nonnegative when last processed
+    batch = []                       # constraints pending
+    last_profile = set()
+    processed_once = False
+    for t in lin:
+        if t[0] == "new":
+            dim = int(t[2])
+        elif t[0] == "newc":
+            dim = int(t[2])
+            m = int(t[4])
+            batch += parse_cons(t[5: 5 + m * (2 + dim)], dim)
+        elif t[0] == "op":
+            if t[2] == "add_con":
+                batch += parse_cons(t[3:], dim)
+            elif t[2] == "add_cons":
+                batch += parse_cons(t[4:], dim)
+            elif t[2] == "add_dims":
+                dim += int(t[3])
+        elif t[0] == "obs" and t[2] != "okinv":
+            prof = set()
+            remerge, multi = False, False
+            for rel, k, a in batch:
+                nz = [j for j, v in enumerate(a) if v != 0]
+                if len(nz) >= 2 and rel == ">=":
+                    multi = True
+                if len(nz) == 1:
+                    j, v = nz[0], a[nz[0]]
+                    if rel == ">=" and k == 0 and v > 0 and j < mapped_dim and j not in nonneg and processed_once:
+                        remerge = True
+            if remerge:
+                prof.add("pending_sign_restriction_remerges_split_variable")
+                if multi:
+                    prof.add("pending_sign_restriction_remerges_split_variable_with_multi_variable_inequality")
+            if batch:
+                last_profile = prof
+            # bookkeeping as in parse_constraints (cases 4-7 mark the variable nonnegative)
+            for rel, k, a in batch:
+                nz = [j for j, v in enumerate(a) if v != 0]
+                if len(nz) == 1:
+                    j, v = nz[0], a[nz[0]]
+                    if (rel == "=" and v * k <= 0) or (rel == ">=" and v > 0 and k <= 0):
+                        nonneg.add(j)
+            batch = []
+            mapped_dim = dim
+            processed_once = True
+    return last_profile
+
+
 def classify(hist, idx, verdict):
     """site + tags (structural class) of the failing event hist[idx]"""
     toks = hist[idx].split()
@@ -70,17 +153,8 @@ def classify(hist, idx, verdict):
     lib = toks[3] if len(toks) > 3 else "?"
     tags += ["reference_" + klass(ref), "relaxation_" + klass(relax), "window_" + klass(window),
              "via_" + src, "obligation_" + obligation]
-    # what preceded on this slot (following copies back to their source)
-    ops, cur = [], slot
-    for l in reversed(hist[:idx]):
-        t = l.split()
-        if t[0] == "copy" and t[1] == cur:
-            cur = t[2]
-        elif t[0] in ("op", "obs") and len(t) > 2 and t[1] == cur:
-            ops.append(t[0] + ":" + t[2])
-        elif t[0] in ("new", "newc") and t[1] == cur:
-            break
-    ops.reverse()
+    lin = lineage(hist, idx, slot)
+    ops = [t[0] + ":" + t[2] for t in lin if t[0] in ("op", "obs")]
     has_ints = any(o == "op:add_ints" for o in ops)
     if has_ints:
         tags.append("mixed_integer")
@@ -96,17 +170,17 @@ def classify(hist, idx, verdict):
     if has_ints and says_unsat and klass(relax) == "unbounded" and integer_point_exists and solve_before:
         site = "MIP_Problem::solve_mip"
         tags.append("unfeasible_reported_relaxation_unbounded_integer_point_exists")
-    # constraints added after a solve(), then add_to_integer_space_dimensions, then solve: the
-    # incremental answer is computed without (some of) the later constraints
-    last_obs = max([i for i, o in enumerate(ops) if o.startswith("obs:")], default=-1)
-    if has_ints and src == "obs" and kind in SOLVE_LIKE + ("sat", "fpoint"):
-        first_solve = min([i for i, o in enumerate(ops) if o.startswith("obs:") and o.split(":")[1] in SOLVE_LIKE], default=None)
-        if first_solve is not None:
-            later = ops[first_solve + 1:]
-            if "op:add_con" in later or "op:add_cons" in later:
-                cons_pos = min(i for i, o in enumerate(later) if o in ("op:add_con", "op:add_cons"))
-                if "op:add_ints" in later[cons_pos + 1:]:
-                    tags.append("constraints_after_solve_then_add_ints")
+    # process_pending_constraints(): the batch pending at the last processing call of the *incremental*
+    # object re-merges a split variable (new `x >= 0`) and carries an inequality judged "already
+    # satisfied" against the point of the previous solve
+    if src == "obs":
+        trigger = idx if kind != "okinv" else idx     # okinv follows its observation line directly
+        prof = pending_batch_profile(lineage(hist, trigger, slot) + ([toks] if kind != "okinv" else []))
+        if prof:
+            tags += sorted(prof)
+            if "pending_sign_restriction_remerges_split_variable_with_multi_variable_inequality" in prof and \
+                    obligation in ("witness", "invariant", "optimum", "value", "status", "satisfiable", "incremental≠fresh"):
+                site = "MIP_Problem::process_pending_constraints"
     return {"site": site, "tags": tags}
 
 
